@@ -14,6 +14,8 @@ import (
 	"pgregory.net/rapid"
 
 	"verifharness/internal/ev"
+	"verifharness/internal/exact"
+	"verifharness/internal/model"
 	"verifharness/internal/run"
 )
 
@@ -30,9 +32,12 @@ type Case struct {
 	// "x" / "y" = a copy of the point's own x / y, "mix" = small integers derived
 	// from the index; the last three put values of the same range as x,y next to them.
 	Extra string `json:"extra,omitempty"`
+	// PtsF, when present, replaces Pts: points with arbitrary finite float64 ordinates.
+	PtsF [][2]model.F `json:"ptsf,omitempty"`
 }
 
-var layouts = []geom.Layout{geom.XY, geom.XYZ, geom.XYM, geom.XYZM}
+// the first four are used round-robin by the exhaustive loop; the wider ones are drawn
+var layouts = []geom.Layout{geom.XY, geom.XYZ, geom.XYM, geom.XYZM, geom.Layout(5), geom.Layout(6)}
 
 func genPts(t *rapid.T) (string, [][2]int64) {
 	shape := rapid.SampledFrom([]string{"lattice", "uniform", "circle", "collinear", "dups", "lattice", "two-lines", "dense", "dense"}).Draw(t, "shape")
@@ -152,7 +157,114 @@ func genPts(t *rapid.T) (string, [][2]int64) {
 	return shape, pts
 }
 
+// genPtsF: point sets with float ordinates. Nearly collinear runs (points a few
+// ulps off a segment), circles, uniform clouds, a small shape at a large offset,
+// and sets at the two ends of the float64 range.
+func genPtsF(t *rapid.T) (string, [][2]model.F) {
+	shape := rapid.SampledFrom([]string{"f-near-collinear", "f-near-collinear", "f-circle", "f-uniform", "f-offset", "f-tiny", "f-huge", "f-two-near-lines"}).Draw(t, "fshape")
+	var n int
+	switch rapid.IntRange(0, 4).Draw(t, "sizeclass") {
+	case 0:
+		n = rapid.IntRange(1, 4).Draw(t, "n")
+	case 1:
+		n = rapid.IntRange(5, 20).Draw(t, "n")
+	case 2:
+		n = rapid.IntRange(48, 53).Draw(t, "n")
+	case 3:
+		n = rapid.IntRange(54, 130).Draw(t, "n")
+	default:
+		n = rapid.IntRange(21, 47).Draw(t, "n")
+	}
+	fin := func(v float64) float64 {
+		switch {
+		case math.IsNaN(v):
+			return 0
+		case math.IsInf(v, 0):
+			return math.Copysign(math.MaxFloat64, v)
+		}
+		return v
+	}
+	nudge := func(v float64, l string) float64 {
+		k := rapid.IntRange(-2, 2).Draw(t, l)
+		for ; k > 0; k-- {
+			v = math.Nextafter(v, math.Inf(1))
+		}
+		for ; k < 0; k++ {
+			v = math.Nextafter(v, math.Inf(-1))
+		}
+		return fin(v)
+	}
+	scale := 1.0
+	switch shape {
+	case "f-tiny":
+		scale = math.Ldexp(1, rapid.SampledFrom([]int{-1070, -1040, -1022, -1000, -600, -530}).Draw(t, "se"))
+	case "f-huge":
+		scale = math.Ldexp(1, rapid.SampledFrom([]int{500, 511, 530, 1000, 1018}).Draw(t, "se"))
+	}
+	ox, oy := 0.0, 0.0
+	if shape == "f-offset" {
+		ox = math.Ldexp(float64(rapid.IntRange(-999, 999).Draw(t, "ox")), rapid.IntRange(10, 40).Draw(t, "oxe"))
+		oy = math.Ldexp(float64(rapid.IntRange(-999, 999).Draw(t, "oy")), rapid.IntRange(10, 40).Draw(t, "oye"))
+	}
+	u := func(l string) float64 { return rapid.Float64Range(-8, 8).Draw(t, l) }
+	var pts [][2]model.F
+	add := func(x, y float64) { pts = append(pts, [2]model.F{model.Of(fin(x)), model.Of(fin(y))}) }
+	switch shape {
+	case "f-near-collinear", "f-two-near-lines":
+		lines := 1
+		if shape == "f-two-near-lines" {
+			lines = 2
+		}
+		type seg struct{ ax, ay, bx, by float64 }
+		var segs []seg
+		for i := 0; i < lines; i++ {
+			segs = append(segs, seg{u("ax"), u("ay"), u("bx"), u("by")})
+		}
+		for i := 0; i < n; i++ {
+			sg := segs[i%lines]
+			tt := rapid.SampledFrom([]float64{0, 1, 0.5, 0.25, 0.75}).Draw(t, "t")
+			if rapid.Bool().Draw(t, "trand") {
+				tt = rapid.Float64Range(0, 1).Draw(t, "tv")
+			}
+			add(nudge(sg.ax+tt*(sg.bx-sg.ax), "nx"), nudge(sg.ay+tt*(sg.by-sg.ay), "ny"))
+		}
+		if n >= 3 && rapid.IntRange(0, 2).Draw(t, "offline") == 0 {
+			add(u("px"), u("py"))
+		}
+	case "f-circle":
+		r := rapid.Float64Range(0.5, 1000).Draw(t, "r")
+		for i := 0; i < n; i++ {
+			th := 2 * math.Pi * float64(i) / float64(n)
+			if rapid.IntRange(0, 7).Draw(t, "jit") == 0 {
+				th = rapid.Float64Range(0, 7).Draw(t, "theta")
+			}
+			add(r*math.Cos(th), r*math.Sin(th))
+		}
+	default:
+		for i := 0; i < n; i++ {
+			x, y := u("x"), u("y")
+			if i > 0 && rapid.IntRange(0, 5).Draw(t, "dup") == 0 {
+				q := pts[rapid.IntRange(0, i-1).Draw(t, "dupof")]
+				add(q[0].V(), q[1].V())
+				continue
+			}
+			add(ox+x*scale, oy+y*scale)
+		}
+	}
+	return shape, pts
+}
+
 func genCase(t *rapid.T) Case {
+	if rapid.IntRange(0, 3).Draw(t, "floatmode") == 0 {
+		shape, pts := genPtsF(t)
+		return Case{
+			Shape:  shape,
+			Layout: int(rapid.SampledFrom(layouts).Draw(t, "layout")),
+			Via:    rapid.SampledFrom([]string{"flat", "flat", "multipoint", "linestring", "polygon"}).Draw(t, "via"),
+			PtsF:   pts,
+			Extra:  rapid.SampledFrom([]string{"", "", "const:0", "const:1", "mix"}).Draw(t, "extra"),
+		}
+	}
 	shape, pts := genPts(t)
 	return Case{
 		Shape:  shape,
@@ -206,11 +318,32 @@ func hullInt(pts [][2]int64) [][2]int64 {
 	return append(lower[:len(lower)-1], upper[:len(upper)-1]...)
 }
 
+// xyOf returns the case's points as float64 pairs (integer or float mode).
+func xyOf(c Case) [][2]float64 {
+	if len(c.PtsF) > 0 {
+		out := make([][2]float64, len(c.PtsF))
+		for i, p := range c.PtsF {
+			out[i] = [2]float64{p[0].V(), p[1].V()}
+		}
+		return out
+	}
+	out := make([][2]float64, len(c.Pts))
+	for i, p := range c.Pts {
+		out[i] = [2]float64{float64(p[0]), float64(p[1])}
+	}
+	return out
+}
+
 func flatOf(c Case) []float64 {
 	stride := geom.Layout(c.Layout).Stride()
-	flat := make([]float64, 0, len(c.Pts)*stride)
-	for i, p := range c.Pts {
-		flat = append(flat, float64(p[0]), float64(p[1]))
+	xs := xyOf(c)
+	flat := make([]float64, 0, len(xs)*stride)
+	for i, q := range xs {
+		p := [2]int64{int64(i), int64(i + 1)}
+		if len(c.Pts) > 0 {
+			p = c.Pts[i]
+		}
+		flat = append(flat, q[0], q[1])
 		for d := 2; d < stride; d++ {
 			switch {
 			case strings.HasPrefix(c.Extra, "const:"):
@@ -260,37 +393,69 @@ func prop(c Case) error {
 	if res.Layout() != layout {
 		return fmt.Errorf("hull layout %v, want %v", res.Layout(), layout)
 	}
-	E := hullInt(c.Pts)
+	pts := xyOf(c)
+	floatMode := len(c.PtsF) > 0
+	var E [][2]float64
+	if floatMode {
+		ps := make([]exact.P2, len(pts))
+		for i, q := range pts {
+			ps[i] = exact.Pt(q[0], q[1])
+		}
+		for _, i := range exact.Hull(ps) {
+			E = append(E, pts[i])
+		}
+	} else {
+		for _, q := range hullInt(c.Pts) {
+			E = append(E, [2]float64{float64(q[0]), float64(q[1])})
+		}
+	}
+	orient := func(a, b, d [2]float64) int {
+		if floatMode {
+			return exact.Orient(exact.Pt(a[0], a[1]), exact.Pt(b[0], b[1]), exact.Pt(d[0], d[1]))
+		}
+		cr := cross([2]int64{int64(a[0]), int64(a[1])}, [2]int64{int64(b[0]), int64(b[1])}, [2]int64{int64(d[0]), int64(d[1])})
+		switch {
+		case cr > 0:
+			return 1
+		case cr < 0:
+			return -1
+		}
+		return 0
+	}
 	out := res.FlatCoords()
 	if len(out)%stride != 0 {
 		return fmt.Errorf("hull has %d ordinates, stride %d", len(out), stride)
 	}
 	// provenance: every output coordinate is bit-identical to an input coordinate
-	type key [4]uint64
-	in := map[key]bool{}
-	for i := 0; i < len(flat); i += stride {
-		var k key
-		for d := 0; d < stride; d++ {
-			k[d] = math.Float64bits(flat[i+d])
+	keyOf := func(v []float64) string {
+		b := make([]byte, 0, 8*len(v))
+		for _, x := range v {
+			u := math.Float64bits(x)
+			for k := 0; k < 8; k++ {
+				b = append(b, byte(u>>(8*k)))
+			}
 		}
-		in[k] = true
+		return string(b)
 	}
-	var verts [][2]int64
+	in := map[string]bool{}
+	for i := 0; i < len(flat); i += stride {
+		in[keyOf(flat[i:i+stride])] = true
+	}
+	var verts [][2]float64
 	for i := 0; i < len(out); i += stride {
-		var k key
-		for d := 0; d < stride; d++ {
-			k[d] = math.Float64bits(out[i+d])
-		}
-		if !in[k] {
+		if !in[keyOf(out[i:i+stride])] {
 			return fmt.Errorf("hull vertex %v is not an input coordinate (hull %v)", out[i:i+stride], out)
 		}
-		verts = append(verts, [2]int64{int64(out[i]), int64(out[i+1])})
+		verts = append(verts, [2]float64{out[i] + 0, out[i+1] + 0}) // +0: -0 and 0 are the same position
 	}
-	sameSet := func(a, b [][2]int64) bool {
+	for i := range E {
+		E[i] = [2]float64{E[i][0] + 0, E[i][1] + 0}
+	}
+	sameSet := func(a, b [][2]float64) bool {
 		if len(a) != len(b) {
 			return false
 		}
-		m := map[[2]int64]int{}
+		m := map[[2]float64]int{}
 		for _, p := range a {
 			m[p]++
 		}
@@ -308,7 +473,7 @@ func prop(c Case) error {
 	case 1:
 		p, ok := res.(*geom.Point)
 		if !ok {
-			return fmt.Errorf("all %d points coincide at %v but hull is %T %v", len(c.Pts), E[0], res, out)
+			return fmt.Errorf("all %d points coincide at %v but hull is %T %v", len(pts), E[0], res, out)
 		}
 		if len(verts) != 1 || verts[0] != E[0] {
 			return fmt.Errorf("hull point %v, want %v", p.FlatCoords(), E[0])
@@ -335,15 +500,11 @@ func prop(c Case) error {
 		if !sameSet(ring, E) {
 			return fmt.Errorf("hull ring vertices %v, exact extreme points %v", ring, E)
 		}
-		sign := int64(0)
+		sign := 0
 		for i := range ring {
-			cr := cross(ring[i], ring[(i+1)%len(ring)], ring[(i+2)%len(ring)])
-			if cr == 0 {
+			s := orient(ring[i], ring[(i+1)%len(ring)], ring[(i+2)%len(ring)])
+			if s == 0 {
 				return fmt.Errorf("hull ring has a collinear vertex at %v: %v", ring[(i+1)%len(ring)], ring)
-			}
-			s := int64(1)
-			if cr < 0 {
-				s = -1
 			}
 			if sign == 0 {
 				sign = s
@@ -356,6 +517,16 @@ func prop(c Case) error {
 }
 
 func classify(c Case) ([]string, bool) {
+	if len(c.PtsF) > 0 {
+		cl := []string{"shape:" + c.Shape, "via:" + c.Via, "float-ordinates"}
+		if len(c.PtsF) > 50 {
+			cl = append(cl, "n>50")
+		}
+		if geom.Layout(c.Layout).Stride() > 4 {
+			cl = append(cl, "stride>4")
+		}
+		return cl, len(c.PtsF) >= 3
+	}
 	n := len(c.Pts)
 	E := hullInt(c.Pts)
 	distinct := map[[2]int64]bool{}
